@@ -211,13 +211,13 @@ theorem clamp0_le {x m : Int} (hx : x ≤ m) (hm : 0 ≤ m) : clamp0 x ≤ m := 
 
 /-- `updateGroupDeltaUsedNoLock` keeps the invariant when the delta fits on every group of the path
     that the invariant speaks about. -/
-theorem inv_applyDelta (cp : Bool) (s : State) (names : List Nat) (δ nδ : Nat → Int) (pods' : List Pod)
+theorem inv_applyDelta (cp : Bool) (s : State) (names : List Nat) (self : Option Nat) (δ nδ : Nat → Int) (pods' : List Pod)
     (hpods : ∀ p ∈ pods', ∀ d, 0 ≤ val p.req d)
     (hU : ∀ g ∈ s.quotas, g.name ∈ names → (cp = true ∨ IsLeafL s.quotas g.name) →
             ∀ d, d < s.dims → ∀ m, g.max d = some m → g.used d + δ d ≤ m)
     (hN : ∀ g ∈ s.quotas, g.name ∈ names → IsLeafL s.quotas g.name →
             ∀ d, d < s.dims → ∀ m, g.min d = some m → g.npUsed d + nδ d ≤ m)
-    (h : Inv cp s) : Inv cp { s with quotas := applyDelta s names δ nδ, pods := pods' } := by
+    (h : Inv cp s) : Inv cp { s with quotas := applyDelta s names self δ nδ, pods := pods' } := by
   unfold applyDelta
   apply inv_map cp s _ pods' _ _ _ _ hpods _ _ h
   · intro q; by_cases hq : q.name ∈ names <;> simp [hq, addUsed]
